@@ -324,7 +324,7 @@ class Build:
         if True:   # the real (sanitized) build is always needed for replay; u.differential only controls the transcript comparison
             must(['gcc', '-O1', '-w', '-DVP_NATIVE', '-DVP_REAL', '-I' + ENGINE, '-c', ENGINE + '/rt.c', '-o', d + '/rt_real.o'])
             must(['gcc', '-w', '-c', d + '/entries.c', '-o', d + '/entries.o'])
-            must(['g++'] + CXXDEFS + ['-I' + VERIF + '/shim', '-O1', '-g1', '-fsanitize=address,undefined', '-fno-sanitize=vptr', '-fno-sanitize-recover=undefined', '-w', d + '/shim.cpp', ENGINE + '/real_main.cpp',
+            must(['g++'] + CXXDEFS + ['-DVP_REAL_BUILD', '-I' + VERIF + '/shim', '-O1', '-g1', '-fsanitize=address,undefined', '-fno-sanitize=vptr', '-fno-sanitize-recover=undefined', '-w', d + '/shim.cpp', ENGINE + '/real_main.cpp',
                   d + '/rt_real.o', d + '/entries.o'] + self.objs + ['-o', d + '/real', '-lpcap', '-lcrypto', '-lpthread'])
             u.real_bin = d + '/real'
 
